@@ -34,6 +34,14 @@ CAUGHT = {
  'C29-a': (['C29'], ''),
  'C30-a': (['C30'], 'first missed; caught after the C30 generator learned documents with per-line mixed line ends and multi-byte characters on many lines'),
  'C31-a': (['C31'], ''),
+ 'C08-b': (['C08'], ''),
+ 'C11-b': (['C11'], ''),
+ 'C12-b': (['C12'], 'first missed by C12 and C03; caught after C12 learned grammars with clipped / member-named / user-typed occurrences (a third of its cases)'),
+ 'C15-b': (['C15'], ''),
+ 'C16-b': (['C16', 'C14'], ''),
+ 'C18-b': (['C18', 'C21'], ''),
+ 'C21-b': (['C21', 'C13'], 'first missed by C21 (C13 caught it); caught by C21 after lookahead patterns with regex meta characters (., a+, (b)) joined the annotation pool'),
+ 'C25-b': (['C25'], 'first missed; caught after titles and comments with backslashes, escaped quotes, tabs, line breaks and non-ASCII characters joined the annotation pool - which also uncovered a genuine defect of parol\'s String token (recorded)'),
  'C04-b': (['C04'], ''),
  'C06-b': (['C06'], ''),
  'C07-b': (['C07', 'C01'], ''),
